@@ -446,6 +446,23 @@ theorem closure_multisig_p2wsh_signed {α G : Type} [AddCommGroup G] (C : Crypto
       exact Spend.sign_passes_checkECDSA C L cx _ .WITNESS_V0 ht hht hk' pk Q hp hQ hsign der hder hmax) hal)
     henc (fun s _ x _ => checkECDSA_total C cx s x _ _)
 
+/-- T1 end to end (p2sh-p2wsh k-of-n multisig). -/
+theorem closure_multisig_p2sh_p2wsh_signed {α G : Type} [AddCommGroup G] (C : Crypto α) (L : Lawful C.o G)
+    (flags : Nat) (cx : TxCtx) (h hr : Bytes) (keys sigs : List Bytes) (hl : h.length = 32) (hrl : hr.length = 20)
+    (hP : has flags FLAG_P2SH = true) (hW : has flags FLAG_WITNESS = true) (hnz : castToBool h = true)
+    (hhr : C.ripemd160 (C.S (p2wsh h)) = hr) (hh : C.S (multisig sigs.length keys) = h)
+    (hn : 1 ≤ keys.length ∧ keys.length ≤ 16) (hk : 1 ≤ sigs.length ∧ sigs.length ≤ keys.length)
+    (hkeys : ∀ x ∈ keys, isCompressedPubKey x = true) (hsl : ∀ s ∈ sigs, s.length ≤ 520)
+    (hal : Aligned (MadeBy C L cx (multisig sigs.length keys) .WITNESS_V0) sigs keys)
+    (henc : ∀ s ∈ sigs, checkSignatureEncoding flags s = .ok ()) :
+    verifyScript (envOf C flags cx) (serializePushes [p2wsh h]) (p2sh hr)
+      (([] :: sigs) ++ [multisig sigs.length keys]) = .ok () :=
+  closure_multisig_p2sh_p2wsh (envOf C flags cx) h hr keys sigs hl hrl hP hW hnz hhr hh hn hk hkeys hsl
+    (aligned_mono (fun sig pk ⟨ht, _, _, _, _, _, Q, der, hht, hk', hp, hQ, hsign, hder, hmax, e⟩ => by
+      subst e
+      exact Spend.sign_passes_checkECDSA C L cx _ .WITNESS_V0 ht hht hk' pk Q hp hQ hsign der hder hmax) hal)
+    henc (fun s _ x _ => checkECDSA_total C cx s x _ _)
+
 /-- T1 end to end (bare k-of-n multisig); `hsc` (FindAndDelete finds no pushed signature) stays a hypothesis. -/
 theorem closure_multisig_bare_signed {α G : Type} [AddCommGroup G] (C : Crypto α) (L : Lawful C.o G)
     (flags : Nat) (cx : TxCtx) (keys sigs : List Bytes)
@@ -560,6 +577,131 @@ theorem closure_taproot_key_secp256k1 (flags : Nat) (cx : TxCtx) (prog : Bytes) 
   verify_tr_key (envOf secpCrypto flags cx) prog _ hq hW hnz
     (Btc.E2E.sign_passes_checkSchnorr_secp256k1 cx .TAPROOT ht _ hht hdef fuel q aux sg hsign sig64 hser prog hpk)
 
+/-- **T1 end to end on secp256k1 (p2pk)**. -/
+theorem closure_p2pk_secp256k1 (vk : Bytes → Bool) (flags : Nat) (cx : TxCtx) (pk : Bytes) (ht : Nat) (hht : ht < 256)
+    {q k r s kid : Int} (hpk : isCompressedPubKey pk = true)
+    (hp : secpParsePub pk = some ((EC.ops EC.secp256k1).mul q EC.secp256k1.G)) (hk : 0 < k ∧ k < EC.secp256k1.n)
+    (hsign : Ecdsa.signRecoverable (EC.ops EC.secp256k1)
+      (Rfc6979.challenge EC.secp256k1.n (engineEcdsaDigest secpCrypto cx (p2pk pk) .BASE ht)) q k true = .ok (r, s, kid))
+    (der : Bytes) (hder : Der.serialize r s = .ok der) (hmax : der.length ≤ Gen.VarInt.MAX_SIZE)
+    (henc : checkSignatureEncoding flags (der ++ [UInt8.ofNat ht]) = .ok ())
+    (hs2 : 2 ≤ (der ++ [UInt8.ofNat ht]).length) (hs : (der ++ [UInt8.ofNat ht]).length < 76)
+    (hne : der ++ [UInt8.ofNat ht] ≠ pk) :
+    ∃ ss wit, finalizedInput vk ⟨some (p2pk pk), [], [], [(pk, der ++ [UInt8.ofNat ht])]⟩ = .ok (ss, wit) ∧
+      verifyScript (envOf secpCrypto flags cx) ss (p2pk pk) wit = .ok () :=
+  closure_p2pk vk (envOf secpCrypto flags cx) _ pk henc hs2 hs hpk hne
+    (Btc.E2E.sign_passes_checkECDSA_secp256k1 cx (p2pk pk) .BASE ht hht hk pk hp hsign der hder hmax)
+
+/-- **T1 end to end on secp256k1 (p2pkh)**. -/
+theorem closure_p2pkh_secp256k1 (vk : Bytes → Bool) (flags : Nat) (cx : TxCtx) (h pk : Bytes) (ht : Nat) (hht : ht < 256)
+    {q k r s kid : Int} (hl : h.length = 20) (hh : ripemd160 (sha256 pk) = h) (hpk : isCompressedPubKey pk = true)
+    (hp : secpParsePub pk = some ((EC.ops EC.secp256k1).mul q EC.secp256k1.G)) (hk : 0 < k ∧ k < EC.secp256k1.n)
+    (hsign : Ecdsa.signRecoverable (EC.ops EC.secp256k1)
+      (Rfc6979.challenge EC.secp256k1.n (engineEcdsaDigest secpCrypto cx (p2pkh h) .BASE ht)) q k true = .ok (r, s, kid))
+    (der : Bytes) (hder : Der.serialize r s = .ok der) (hmax : der.length ≤ Gen.VarInt.MAX_SIZE)
+    (henc : checkSignatureEncoding flags (der ++ [UInt8.ofNat ht]) = .ok ())
+    (hs2 : 2 ≤ (der ++ [UInt8.ofNat ht]).length) (hs : (der ++ [UInt8.ofNat ht]).length < 76)
+    (hne : der ++ [UInt8.ofNat ht] ≠ h) :
+    ∃ ss wit, finalizedInput vk ⟨some (p2pkh h), [], [], [(pk, der ++ [UInt8.ofNat ht])]⟩ = .ok (ss, wit) ∧
+      verifyScript (envOf secpCrypto flags cx) ss (p2pkh h) wit = .ok () :=
+  closure_p2pkh vk (envOf secpCrypto flags cx) h _ pk hl hh henc hs2 hs hpk hne
+    (Btc.E2E.sign_passes_checkECDSA_secp256k1 cx (p2pkh h) .BASE ht hht hk pk hp hsign der hder hmax)
+
+/-- **T1 end to end on secp256k1 (p2sh-p2wpkh)**. -/
+theorem closure_p2sh_p2wpkh_secp256k1 (vk : Bytes → Bool) (flags : Nat) (cx : TxCtx) (h hr pk : Bytes) (ht : Nat)
+    (hht : ht < 256) {q k r s kid : Int} (hl : h.length = 20) (hrl : hr.length = 20)
+    (hP : has flags FLAG_P2SH = true) (hW : has flags FLAG_WITNESS = true) (hnz : castToBool h = true)
+    (hhr : ripemd160 (sha256 (p2wpkh h)) = hr) (hh : ripemd160 (sha256 pk) = h) (hpk : isCompressedPubKey pk = true)
+    (hp : secpParsePub pk = some ((EC.ops EC.secp256k1).mul q EC.secp256k1.G)) (hk : 0 < k ∧ k < EC.secp256k1.n)
+    (hsign : Ecdsa.signRecoverable (EC.ops EC.secp256k1)
+      (Rfc6979.challenge EC.secp256k1.n (engineEcdsaDigest secpCrypto cx (p2pkh h) .WITNESS_V0 ht)) q k true =
+        .ok (r, s, kid))
+    (der : Bytes) (hder : Der.serialize r s = .ok der) (hmax : der.length ≤ Gen.VarInt.MAX_SIZE)
+    (henc : checkSignatureEncoding flags (der ++ [UInt8.ofNat ht]) = .ok ())
+    (hslen : (der ++ [UInt8.ofNat ht]).length ≤ 520) :
+    ∃ ss wit, finalizedInput vk ⟨some (p2sh hr), p2wpkh h, [], [(pk, der ++ [UInt8.ofNat ht])]⟩ = .ok (ss, wit) ∧
+      verifyScript (envOf secpCrypto flags cx) ss (p2sh hr) wit = .ok () :=
+  closure_p2sh_p2wpkh vk (envOf secpCrypto flags cx) h hr _ pk hl hrl hP hW hnz hhr hh henc hslen hpk
+    (Btc.E2E.sign_passes_checkECDSA_secp256k1 cx (p2pkh h) .WITNESS_V0 ht hht hk pk hp hsign der hder hmax)
+
+/-- a signature element made with `Btc.EC.ops secp256k1` for the key octets `pk`, over the engine's digest for `(sc, sv)` -/
+def MadeBySecp (cx : TxCtx) (sc : Bytes) (sv : SigVersion) (sig pk : Bytes) : Prop :=
+  ∃ (ht : Nat) (q k r s kid : Int) (der : Bytes), ht < 256 ∧ (0 < k ∧ k < EC.secp256k1.n) ∧
+    secpParsePub pk = some ((EC.ops EC.secp256k1).mul q EC.secp256k1.G) ∧
+    Ecdsa.signRecoverable (EC.ops EC.secp256k1)
+      (Rfc6979.challenge EC.secp256k1.n (engineEcdsaDigest secpCrypto cx sc sv ht)) q k true = .ok (r, s, kid) ∧
+    Der.serialize r s = .ok der ∧ der.length ≤ Gen.VarInt.MAX_SIZE ∧ sig = der ++ [UInt8.ofNat ht]
+
+theorem madeBySecp_passes (cx : TxCtx) (sc : Bytes) (sv : SigVersion) (sig pk : Bytes) (h : MadeBySecp cx sc sv sig pk) :
+    checkECDSA secpCrypto cx sig pk sc sv = .ok true := by
+  obtain ⟨ht, _, _, _, _, _, der, hht, hk, hp, hsign, hder, hmax, e⟩ := h
+  subst e
+  exact Btc.E2E.sign_passes_checkECDSA_secp256k1 cx sc sv ht hht hk pk hp hsign der hder hmax
+
+/-- **T1 end to end on secp256k1 (p2wsh k-of-n multisig)**. -/
+theorem closure_multisig_p2wsh_secp256k1 (flags : Nat) (cx : TxCtx) (h : Bytes) (keys sigs : List Bytes)
+    (hl : h.length = 32) (hW : has flags FLAG_WITNESS = true) (hnz : castToBool h = true)
+    (hh : sha256 (multisig sigs.length keys) = h)
+    (hn : 1 ≤ keys.length ∧ keys.length ≤ 16) (hk : 1 ≤ sigs.length ∧ sigs.length ≤ keys.length)
+    (hkeys : ∀ x ∈ keys, isCompressedPubKey x = true) (hsl : ∀ s ∈ sigs, s.length ≤ 520)
+    (hal : Aligned (MadeBySecp cx (multisig sigs.length keys) .WITNESS_V0) sigs keys)
+    (henc : ∀ s ∈ sigs, checkSignatureEncoding flags s = .ok ()) :
+    verifyScript (envOf secpCrypto flags cx) [] (p2wsh h) (([] :: sigs) ++ [multisig sigs.length keys]) = .ok () :=
+  closure_multisig_p2wsh (envOf secpCrypto flags cx) h keys sigs hl hW hnz hh hn hk hkeys hsl
+    (aligned_mono (fun sig pk hm => madeBySecp_passes cx _ _ sig pk hm) hal)
+    henc (fun s _ x _ => checkECDSA_total secpCrypto cx s x _ _)
+
+/-- **T1 end to end on secp256k1 (p2sh-p2wsh k-of-n multisig)**. -/
+theorem closure_multisig_p2sh_p2wsh_secp256k1 (flags : Nat) (cx : TxCtx) (h hr : Bytes) (keys sigs : List Bytes)
+    (hl : h.length = 32) (hrl : hr.length = 20)
+    (hP : has flags FLAG_P2SH = true) (hW : has flags FLAG_WITNESS = true) (hnz : castToBool h = true)
+    (hhr : ripemd160 (sha256 (p2wsh h)) = hr) (hh : sha256 (multisig sigs.length keys) = h)
+    (hn : 1 ≤ keys.length ∧ keys.length ≤ 16) (hk : 1 ≤ sigs.length ∧ sigs.length ≤ keys.length)
+    (hkeys : ∀ x ∈ keys, isCompressedPubKey x = true) (hsl : ∀ s ∈ sigs, s.length ≤ 520)
+    (hal : Aligned (MadeBySecp cx (multisig sigs.length keys) .WITNESS_V0) sigs keys)
+    (henc : ∀ s ∈ sigs, checkSignatureEncoding flags s = .ok ()) :
+    verifyScript (envOf secpCrypto flags cx) (serializePushes [p2wsh h]) (p2sh hr)
+      (([] :: sigs) ++ [multisig sigs.length keys]) = .ok () :=
+  closure_multisig_p2sh_p2wsh (envOf secpCrypto flags cx) h hr keys sigs hl hrl hP hW hnz hhr hh hn hk hkeys hsl
+    (aligned_mono (fun sig pk hm => madeBySecp_passes cx _ _ sig pk hm) hal)
+    henc (fun s _ x _ => checkECDSA_total secpCrypto cx s x _ _)
+
+/-- **T1 end to end on secp256k1 (bare k-of-n multisig)**; `hsc` (FindAndDelete finds no pushed signature) stays. -/
+theorem closure_multisig_bare_secp256k1 (flags : Nat) (cx : TxCtx) (keys sigs : List Bytes)
+    (hn : 1 ≤ keys.length ∧ keys.length ≤ 16) (hk : 1 ≤ sigs.length ∧ sigs.length ≤ keys.length)
+    (hkeys : ∀ x ∈ keys, isCompressedPubKey x = true) (hs : ∀ s ∈ sigs, 2 ≤ s.length ∧ s.length ≤ 75)
+    (hsc : multisigScriptCode (evalCtx (envOf secpCrypto flags cx) .BASE (multisig sigs.length keys)) sigs.reverse
+      (multisig sigs.length keys) = .ok (multisig sigs.length keys))
+    (hal : Aligned (MadeBySecp cx (multisig sigs.length keys) .BASE) sigs keys)
+    (henc : ∀ s ∈ sigs, checkSignatureEncoding flags s = .ok ()) :
+    verifyScript (envOf secpCrypto flags cx) (serializePushes ([] :: sigs)) (multisig sigs.length keys) [] = .ok () :=
+  closure_multisig_bare (envOf secpCrypto flags cx) keys sigs hn hk hkeys hs hsc
+    (aligned_mono (fun sig pk hm => madeBySecp_passes cx _ _ sig pk hm) hal)
+    henc (fun s _ x _ => checkECDSA_total secpCrypto cx s x _ _)
+
+/-- **T1 end to end on secp256k1 (taproot script path, single-key leaf)**: `sig` made by the LEAF key `q` (x-only `x`)
+    over BIP342's message; control-block acceptance (`hcom`) is C12's. -/
+theorem closure_taproot_pk_leaf_secp256k1 (flags : Nat) (cx : TxCtx) (prog x control : Bytes) (m ht : Nat) (hht : ht < 256)
+    (hq : prog.length = 32) (hl : x.length = 32) (hW : has flags FLAG_WITNESS = true) (hnz : castToBool prog = true)
+    (hcl : control.length = 33 + 32 * m) (hm : m ≤ 128) (hv : getB control 0 / 2 * 2 = 0xc0)
+    (hcom : commitment secpCrypto control prog (taggedHash "TapLeaf".toUTF8.toList
+      (UInt8.ofNat 0xc0 :: (Core.compactSize (pkLeaf x).length ++ pkLeaf x))) = .ok true)
+    (hdef : bip341Defined cx.tx cx.nIn cx.spent ht = true)
+    (fuel : Nat) (q : Int) (aux : Bytes) (sg : Schnorr.Sig)
+    (hsign : Schnorr.sign (EC.ops EC.secp256k1) bip340Params fuel
+      (engineTapDigest secpCrypto cx .TAPSCRIPT ht 0xFFFFFFFF) q aux = .ok sg)
+    (sig64 : Bytes) (hser : Schnorr.serialize (EC.ops EC.secp256k1) bip340Params sg = .ok sig64)
+    (hpk : ((ofBE x : Nat) : Int) = (EC.ops EC.secp256k1).x ((EC.ops EC.secp256k1).mul q EC.secp256k1.G)) :
+    verifyScript (envOf secpCrypto flags cx) [] (p2tr prog)
+      [sig64 ++ (if ht = 0 then [] else [UInt8.ofNat ht]), pkLeaf x, control] = .ok () := by
+  have h64 := Spend.serialize_length secpCrypto rfl rfl sg sig64 hser
+  refine closure_taproot_pk_leaf (envOf secpCrypto flags cx) prog x _ control m hq hl hW hnz hcl hm hv ?_ ?_ hcom
+    (Btc.E2E.sign_passes_checkSchnorr_secp256k1 cx .TAPSCRIPT ht _ hht hdef fuel q aux sg hsign sig64 hser x hpk)
+  · cases sig64 with
+    | nil => simp at h64
+    | cons _ _ => rfl
+  · split <;> simp [h64]
+
 /-! ## T2 — tampering changes the message (or exhibits a collision) -/
 
 /-- T2 (legacy inputs: p2pk, p2pkh, bare and p2sh multisig).  If the engine recomputes the SAME digest for input `i`
@@ -623,23 +765,29 @@ theorem tamper_segwit_v0 {α : Type} (C : Crypto α) (hH : ∀ x, (C.hash256 x).
 /-- T2 (taproot inputs, key path and script path): the same BIP341 digest means the same `SigMsg` -- whose committed
     fields are listed by `Props.C09.bip341_commits`: hash type, version, lock time, the BIP342 extension (tapleaf hash,
     key version, codeseparator position), every outpoint / spent AMOUNT / spent SCRIPT / sequence without ANYONECANPAY
-    (this input's own with it), the outputs as the type prescribes -- or an explicit SHA-256 collision. -/
+    (this input's own with it), the outputs as the type prescribes -- or the two tagged inputs `S(tag) ‖ S(tag) ‖ SigMsg` (`tapTagged`) are an EXPLICIT
+    collision of `S` (never a bare `∃`, which pigeonhole gives for free). -/
+def tapTagged {α : Type} (C : Crypto α) (cx : TxCtx) (sv : SigVersion) (ht pos : Nat) : Bytes :=
+  C.S Gen.SigHash.TAG_SIGHASH ++ (C.S Gen.SigHash.TAG_SIGHASH ++
+    bip341Preimage C.S cx.tx cx.nIn cx.spent ht cx.annex (if sv == .TAPSCRIPT then some ⟨cx.leafHash, 0, pos⟩ else none))
+
 theorem tamper_taproot {α : Type} (C : Crypto α) (cx cx' : TxCtx) (sv : SigVersion) (ht ht' pos pos' : Nat)
     (h : engineTapDigest C cx sv ht pos = engineTapDigest C cx' sv ht' pos') :
     bip341Preimage C.S cx.tx cx.nIn cx.spent ht cx.annex
         (if sv == .TAPSCRIPT then some ⟨cx.leafHash, 0, pos⟩ else none) =
       bip341Preimage C.S cx'.tx cx'.nIn cx'.spent ht' cx'.annex
         (if sv == .TAPSCRIPT then some ⟨cx'.leafHash, 0, pos'⟩ else none) ∨
-    ∃ a b, Collides C.S a b := by
+    Collides C.S (tapTagged C cx sv ht pos) (tapTagged C cx' sv ht' pos') := by
   simp only [engineTapDigest] at h
-  exact Props.C09.bip341_digest_commits C.S _ _ _ _ _ _ _ _ _ _ _ _ h
+  exact Props.C09.bip341_digest_commits_explicit C.S _ _ _ _ _ _ _ _ _ _ _ _ h
 
 /-- T2 (taproot), the committed-FIELD list: the same BIP341 / BIP342 digest for two (transaction, input, spent outputs,
     hash type, leaf, codesep position) means -- `Props.C09.bip341_commits` applied to the equal `SigMsg`s -- the same hash
     type, version, lock time and BIP342 extension (tapleaf hash, key version, codesep position), annex presence; without
     ANYONECANPAY the same input index and every outpoint / spent AMOUNT / spent SCRIPT / SEQUENCE (of EVERY input, also
-    under NONE and SINGLE); with it this input's own; the outputs as the type prescribes -- each OR an explicit SHA-256
-    collision. -/
+    under NONE and SINGLE); with it this input's own; the outputs as the type prescribes; the annex CONTENT when both carry
+    one -- each OR an explicit SHA-256 collision of the two named serializations; the outer alternative is the explicit
+    pair `tapTagged`. -/
 theorem tamper_taproot_fields {α : Type} (C : Crypto α) (hS : ∀ x, (C.S x).length = 32) (cx cx' : TxCtx)
     (sv : SigVersion) (ht ht' pos pos' : Nat)
     (wf : cx.tx.WF) (wf' : cx'.tx.WF) (ws : ∀ o ∈ cx.spent, o.WF) (ws' : ∀ o ∈ cx'.spent, o.WF)
@@ -664,8 +812,10 @@ theorem tamper_taproot_fields {α : Type} (C : Crypto α) (hS : ∀ x, (C.S x).l
         cx.tx.vout = cx'.tx.vout ∨ Collides C.S (serOutputs cx.tx) (serOutputs cx'.tx)) ∧
       (tapSingle ht = true →
         cx.tx.vout.getD cx.nIn blankOut = cx'.tx.vout.getD cx'.nIn blankOut ∨
-          Collides C.S (serTxOut (cx.tx.vout.getD cx.nIn blankOut)) (serTxOut (cx'.tx.vout.getD cx'.nIn blankOut)))) ∨
-    ∃ a b, Collides C.S a b := by
+          Collides C.S (serTxOut (cx.tx.vout.getD cx.nIn blankOut)) (serTxOut (cx'.tx.vout.getD cx'.nIn blankOut))) ∧
+      (∀ a a', cx.annex = some a → cx'.annex = some a' → Sized a → Sized a' →
+        a = a' ∨ Collides C.S (varBytes a) (varBytes a'))) ∨
+    Collides C.S (tapTagged C cx sv ht pos) (tapTagged C cx' sv ht' pos') := by
   rcases tamper_taproot C cx cx' sv ht ht' pos pos' h with e | c
   · left
     have we : ∀ e', (if sv == .TAPSCRIPT then some (⟨cx.leafHash, 0, pos⟩ : TapExt) else none) = some e' → e'.WF := by
@@ -684,9 +834,9 @@ theorem tamper_taproot_fields {α : Type} (C : Crypto α) (hS : ∀ x, (C.S x).l
         · show (0 : Nat) < 256; decide
         · show U32 (pos' : Int); unfold U32; omega
       · cases he
-    obtain ⟨c1, c2, c3, c4, c5, c6, c7, c8, c9, _⟩ := Props.C09.bip341_commits C.S hS cx.tx cx'.tx cx.nIn cx'.nIn
+    obtain ⟨c1, c2, c3, c4, c5, c6, c7, c8, c9, c10⟩ := Props.C09.bip341_commits C.S hS cx.tx cx'.tx cx.nIn cx'.nIn
       cx.spent cx'.spent ht ht' cx.annex cx'.annex _ _ wf wf' ws ws' hin hin' hn hn' hht hht' we we' e
-    refine ⟨c1, c2, c3, ?_, c5, c6, c7, c8, c9⟩
+    refine ⟨c1, c2, c3, ?_, c5, c6, c7, c8, c9, c10⟩
     intro hsv
     subst hsv
     simp only [beq_self_eq_true, if_true, Option.some.injEq, TapExt.mk.injEq] at c4
